@@ -3,6 +3,9 @@ import designs
 from common import Result, ask, rng_for, known_findings
 
 ASSUMPTIONS = [
+    "besides the evaluation model fed with the observed coding decisions, the whole pipeline composed "
+    "in Lean (Model/Pipeline.lean: scanner, parser, term algebra, NA step, redundancy analysis, "
+    "evaluation) is run on formula + data alone and compared with the real design",
     "the label decoder (Spec.C04.decodeLabel) is evaluated by the Lean driver on the labels and "
     "matrices the implementation returned; columns whose label the statement does not define "
     "(sum-coded factors, columns of a spline/polynomial basis, prop) are counted as skipped",
@@ -45,7 +48,7 @@ def explore(tier, seed, res=None, replay=None):
             cases.append((f, len(cases)))
         for _ in range(n_cases):
             cases.append((None, len(cases)))
-    reqs_spec, reqs_model, owners = [], [], []
+    reqs_spec, reqs_model, reqs_pipe, owners = [], [], [], []
     for f, path in cases:
         r = rng_for(seed, "c04", path)
         df = designs.gen_frame(r)
@@ -60,6 +63,9 @@ def explore(tier, seed, res=None, replay=None):
         reqs_spec.append({"op": "c04_spec", "formula": formula, "frame": req["frame"],
                           "names": req["names"], "parts": [p for _, p in parts]})
         reqs_model.append(req)
+        # the whole pipeline in Lean (no coding decisions taken from the implementation)
+        reqs_pipe.append({"op": "pipeline", "formula": formula, "frame": designs.frame_json(df),
+                          "names": designs.names_json(designs.NAMES), "na_action": "drop"})
         owners.append((case, obs, parts))
         if ":" in formula.split("~")[1] or "|" in formula:
             res.nontrivial.add(formula)
@@ -68,6 +74,15 @@ def explore(tier, seed, res=None, replay=None):
                                 "labels": (obs.get("common") or {}).get("labels")})
     spec = ask(reqs_spec)
     model = ask(reqs_model)
+    pipe = ask(reqs_pipe)
+    for (case, obs, _), po in zip(owners, pipe):
+        if "err" in po:
+            res.count("pipeline_skip:" + po["err"] + ":" + str(po.get("what"))[:24])
+            continue
+        res.count("pipeline_compared")
+        diffs = designs.compare(obs, po)
+        if diffs:
+            res.mismatches.append({"case": case, "diff": ["pipeline:" + d for d in diffs[:5]]})
     for (case, obs, parts), sp, mo in zip(owners, spec, model):
         if "err" in sp:
             res.count("spec_skip:" + sp["err"])
